@@ -319,6 +319,34 @@ def body_unused(ctx, prefix):
         ctx.check(utils.find_unused_dimension(da, prefix) == got, 'same answer for a real DataArray')
 
 
+def body_long_dimensions(ctx, conv):
+    """A record dimension longer than any block size in front of the grid, and many taken linear names (two-digit
+    suffixes): flatten then wind gives the variable back, the default name is the first free one."""
+    from emsarray import utils
+    ds, convention = make_convention(conv)
+    kind_obj = convention.default_grid_kind
+    gdims, gsizes = expected_grid(convention, kind_obj)
+    size = int(numpy.prod(gsizes))
+    n = 129 + int(ctx.int('extra_records', 0, 1)) * 128
+    vals = numpy.arange(n * size, dtype=float).reshape((n,) + tuple(gsizes)) * 0.5
+    da = xarray.DataArray(vals, dims=('record',) + tuple(gdims))
+    flat = convention.ravel(da)
+    ctx.check(flat.shape == (n, size) and bool(numpy.array_equal(flat.values, vals.reshape(n, size))), 'ravel: element n of the flattened variable is the value at the native index of n')
+    wound = convention.wind(flat)
+    ctx.check(wound.dims == da.dims and bool(numpy.array_equal(wound.values, vals)), 'wind(ravel(v)) holds exactly the original values')
+    last = xarray.DataArray(numpy.moveaxis(vals, 0, -1), dims=tuple(gdims) + ('record',))
+    ctx.check(bool(numpy.array_equal(convention.ravel(last).values, vals.reshape(n, size))), 'ravel: element n of the flattened variable is the value at the native index of n')
+    for taken in (['index'] + [f'index_{k}' for k in (0, 1, 2, 10)], ['index'] + [f'index_{k}' for k in range(12)], ['index', 'index_0', 'index_1', 'index_3', 'index_10', 'index_11']):
+        k = 0
+        while f'index_{k}' in taken:
+            k += 1
+        ctx.check(utils.find_unused_dimension(FakeDims(tuple(taken)), 'index') == f'index_{k}', 'otherwise the least free prefix_k')
+        many = xarray.DataArray(numpy.zeros((1,) * len(taken) + tuple(gsizes)), dims=tuple(taken) + tuple(gdims))
+        fl = convention.ravel(many)
+        ctx.check(fl.dims == tuple(taken) + (f'index_{k}',), 'default linear dimension is the first unused index name')
+        ctx.check(convention.wind(fl).dims == many.dims, 'wind(ravel(v)) holds exactly the original values')
+
+
 def body_default_linear_collision(ctx, conv, taken):
     """The default linear dimension name avoids the variable's own dimensions."""
     ds, convention = make_convention(conv)
@@ -411,6 +439,8 @@ def cases(tier):
                        dict(conv=conv, taken=taken))
     for prefix in ('index', 'point'):
         yield Case(f'unused:{prefix}', body_unused, dict(prefix=prefix), max_paths=600)
+    for conv in ('cf1d', 'ugrid'):
+        yield Case(f'long:{conv}', body_long_dimensions, dict(conv=conv), max_paths=4)
 
 
 def functions():
